@@ -140,7 +140,7 @@ patch("c17-conditions-skipped-for-decrypted", ["C17"], "saml2_tophat/response.py
       "        if not verified and not self.condition_ok():\n            raise VerificationError(\"Condition not OK\")")
 patch("c17-decrypted-signature-not-verified", ["C17"], "saml2_tophat/response.py",
       "                    if assertion.signature and not verified:", "                    if assertion.signature and not verified and False:")
-patch("c17-encryption-failure-returns-plaintext", ["C17", "C20"], "saml2_tophat/entity.py",
+patch("c17-encryption-failure-returns-plaintext", ["C20"], "saml2_tophat/entity.py",
       "        if exception:\n            raise exception\n        return response", "        return response")
 patch("c17-second-pass-verified-again", ["C20"], "saml2_tophat/response.py",
       "                    resp.encrypted_assertion, decr_text, verified=_verified)",
@@ -192,9 +192,8 @@ patch("c20-stdout-also-searched-everywhere", ["C20"], "saml2_tophat/sigver.py",
 patch("c20-positive-exit-code-is-success", ["C20"], "saml2_tophat/sigver.py",
       [("        return parse_xmlsec_output(stderr)", "        return True"),
        ("                    parse_xmlsec_output(p_err)", "                    assert pof.returncode is not None")], None)
-patch("c20-decrypt-failure-returns-previous-text", ["C20", "C17"], "saml2_tophat/sigver.py",
-      "        return enctext\n\n    def decrypt(self, enctext, key_file=None, id_attr=''):",
-      "        return _enctext if _enctext is not None else enctext\n\n    def decrypt(self, enctext, key_file=None, id_attr=''):")
+# ("decrypt_keys returns the last (empty) attempt instead of the input" was tried and is harmless: an empty document
+# cannot be parsed, the response is rejected)
 
 
 def run(selected):
